@@ -117,6 +117,19 @@ CHECKS["C18"] = dict(
           "after every call) against the transcription while evaluating the contract on every decision."),
     technique="TLA+ RateLimiter.tla (transcription refines contract) model-checked by TLC; all TLC-enumerated arrival sequences replayed on the real class; runs validated by TLC")
 
+CHECKS["C20"] = dict(
+    cat="model_checking", ref="DESIGN.md §5 C20",
+    note=("Trusted: TLC; asyncio.StreamReader (fed by hand: this is what allows every chunking, which loopback TCP would never "
+          "produce). The receiving worker's storage is a stub that records get_event / notify_all_connected; the push itself is "
+          "the fan-out checked under C05. Real TCP between processes and uvicorn workers are not in the loop."),
+    text=("Notifier.tla models the byte streams symbol-wise with a transport that may deliver any non-empty prefix, and transcribes "
+          "the read primitive the code uses; TLC checks C20_Intact, C20_AtMostOnce, C20_SenderOrder, C20_AllDelivered for every "
+          "chunking of every stream and one peer drop (MC_Notifier; with read(32) as found it produced the counterexample that "
+          "led to the repair). TLC-simulated behaviours drive the real NotifyServer.handle_notify and NotifyClient.connect over "
+          "in-memory streams (symbol-aligned and with byte jitter); the look-ups and pushes of every worker are judged by TLC "
+          "against the C20 formulas (Notifier_Trace.tla)."),
+    technique="TLA+ Notifier.tla model-checked by TLC over all chunkings; TLC-simulated chunkings replayed on the real notifier classes; look-ups validated by TLC")
+
 NOT_YET = {}
 
 
